@@ -92,7 +92,7 @@ def env_doc(seeds=()):
 def mkreq(level, method="GET", url="a", hdrs=(), body=("none", ()), slash=True):
     return {"level": level, "method": syms(method), "slash": slash, "url": syms(url),
             "hdrs": [{"n": syms(n), "v": syms(v if v is not None else ""), "skip": v is None} for n, v in hdrs],
-            "body": {"kind": body[0], "chunks": [syms(c) for c in body[1]]}}
+            "body": {"kind": body[0], "chunks": [syms(c) for c in body[1]]}, "chunked": False}
 
 
 EVIL = "GET /evil HTTP/1.1\r\nHost: e\r\n\r\n"
@@ -398,7 +398,7 @@ def random_request(rng):
         return [rng.choice(["a", "Z", "X", "-", "1"]) for _ in range(rng.randint(lo, hi))]
 
     if level == "h2":
-        return {"level": "h2", "method": syms("GET"), "slash": True, "url": [], "body": {"kind": "none", "chunks": []},
+        return {"level": "h2", "method": syms("GET"), "slash": True, "url": [], "body": {"kind": "none", "chunks": []}, "chunked": False,
                 "hdrs": [{"n": hostile(0, 6) if rng.random() < .6 else plain(1, 4),
                           "v": hostile(0, 8) if rng.random() < .6 else plain(0, 5), "skip": False}]}
     which = rng.random()
@@ -408,7 +408,7 @@ def random_request(rng):
            "url": (hostile(0, 10) if .2 <= which < .5 or rng.random() < .2 else
                    [rng.choice([".", ".", "/", "/", "a", "?", "#", "%", "SP"]) for _ in range(rng.randint(0, 9))] if rng.random() < .25
                    else plain(0, 5)),
-           "hdrs": [], "body": {"kind": "none", "chunks": []}}
+           "hdrs": [], "body": {"kind": "none", "chunks": []}, "chunked": False}
     seen = set()
     for _ in range(rng.randint(0, 3)):
         n = hostile(0, 6) if rng.random() < .4 else plain(1, 4)
